@@ -119,6 +119,13 @@ def strata(tier):  # noqa: F811
     from . import c02
     pl, plain = c02._src_leaves()
     sdoc = dict(c02.SRC_DOC, vals=list(c02.SRC_CONT), one={"value": 7, "limit": 5})
+    # data-path arguments that cannot be evaluated in THIS document (several matches for `single`, the length of a number,
+    # the keys of a list): the nodes fail, validation does not raise
+    pl = pl + [PC.L("value", "less_than", {"$path": dict(PC.mkpath([{"p": "prim", "v": "vals"}, {"p": "list"}]), multi="single")}),
+               PC.L("value", "equal_to", {"$path": dict(PC.mkpath([{"p": "prim", "v": "limit"}]), datum="length")}),
+               PC.L("value", "in_", {"$path": dict(PC.mkpath([{"p": "prim", "v": "names"}]), datum="map_keys")}),
+               PC.L("value", "not_equal_to", {"$path": dict(PC.mkpath([{"p": "prim", "v": "m"}, {"p": "map"}]), datum="length", multi="first")}),
+               PC.L("value", "in_range", 0, {"$path": dict(PC.mkpath([{"p": "map"}]), multi="single")})]
     for i, A in enumerate(pl):
         B = plain[i % len(plain)]
         for cond in (A, {"c": "and", "a": A, "b": B}, {"c": "and", "a": B, "b": A}, {"c": "or", "a": A, "b": B}, {"c": "or", "a": B, "b": A},
